@@ -1,11 +1,13 @@
 """C06 (partial) - inverse solvers return the true minimiser of the stated least-squares problem:
-the two linear-algebra clauses.
+the two linear-algebra clauses + the csg_fmatch clauses in their relational reading.
 spec/lsq: Lsq (exact rational linear algebra: determinant/adjugate by cofactor expansion, numerators over one
 common denominator; Tikhonov normal equations, index-file splitting, KKT system of the constrained problem),
 LsqCheck (bounded domains: exhaustive 2x2 families and seed-indexed pseudo-random families up to 4x4 / KKT 5x5),
-MCLsq (TLC wrapper).  Binding: (i) the real csg_imc_solve executable on generated .imc/.gmc/.idx files,
-(ii) tools::linalg_constrained_qrsolve through harness/drivers/lsq.cc.
-NOT covered: csg_fmatch (see MANIFEST note)."""
+Fmatch (csg_fmatch instances: lattice trajectories, a force function inside the spline space, block layouts; the
+relations "block k of a blocked run = a run on block k's frames alone" and "fitted table = generating spline"),
+MCLsq/MCFmatch (TLC wrappers).  Binding: (i) the real csg_imc_solve executable on generated .imc/.gmc/.idx files,
+(ii) tools::linalg_constrained_qrsolve through harness/drivers/lsq.cc, (iii) the real csg_fmatch executable on
+generated topology/options/lammps-dump files, forces generated with the real tools::CubicSpline."""
 import fcntl
 import glob
 import json
@@ -19,10 +21,12 @@ import vlib
 MANIFEST = dict(
     engine="lsq", design_ref="DESIGN.md 5/C06",
     technique="TLA+ spec of the normal equations (A^T A + r I) x = -A^T b, of the index-file splitting and of the "
-              "KKT system of the equality-constrained least-squares problem in exact integer arithmetic, model-checked "
-              "with TLC; every TLC-exported system is replayed into the real csg_imc_solve executable (generated "
-              ".imc/.gmc/.idx files) resp. into tools::linalg_constrained_qrsolve (ASan+assert driver) and the output "
-              "compared with the TLC rationals",
+              "KKT system of the equality-constrained least-squares problem in exact integer arithmetic, plus a TLA+ "
+              "instance/relation spec for csg_fmatch (integer linear relations between outputs of the real code, as "
+              "in C12), model-checked with TLC; every TLC-exported system is replayed into the real csg_imc_solve "
+              "executable (generated .imc/.gmc/.idx files) resp. into tools::linalg_constrained_qrsolve (ASan+assert "
+              "driver), every TLC-exported csg_fmatch instance is run with the real csg_fmatch (blocked run + one run "
+              "per block) and the relations are evaluated on the written force tables",
     text="TLC enumerates integer systems (all 2x2 matrices over -2..2 with several b, r; seed-indexed pseudo-random "
          "non-symmetric A up to 4x4, b, r = rn/rd >= 0, index files with contiguous, strided and multi-block ranges; "
          "constrained problems m x n with 1-2 constraint rows, KKT size <= 5) and checks on the model that the "
@@ -33,18 +37,30 @@ MANIFEST = dict(
          "neighbours; deliberately wrong models (A A^T, A b, sign, constraint ignored, feasible non-optimal point) are "
          "refuted by the same laws. Every exported system is then solved by the real code: csg_imc_solve -i -g -n -r "
          "on generated files (every *.dpot.imc compared row by row, grid and value, 1e-7) and "
-         "linalg_constrained_qrsolve(A, b, C) (1e-9).",
-    note="PARTIAL CLAIM: only the two linear-algebra clauses of C06 (csg_imc_solve incl. index-file splitting; the "
-         "constrained least-squares routine). NOT covered: csg_fmatch recovering generated force fields and its "
-         "independence of the block split - the reference there is the solution of a large least-squares problem "
-         "assembled from spline bases and interaction gradients over a trajectory; no exact integer model of useful "
-         "size exists, and a harness that only reports 'close enough' to TLC would be a change of technique. "
+         "linalg_constrained_qrsolve(A, b, C) (1e-9). csg_fmatch: TLC generates lattice trajectories (5-6 beads, "
+         "1-3 blocks of 1-3 frames plus an incomplete trailing block, constrained and plain least squares, spline grid "
+         "of 4-5 knots, integer knot values, optional integer noise on the forces) and guards in exact integer "
+         "arithmetic that every block's least-squares problem has full rank (no force cancellation, >= 2 distinct "
+         "distances per spline interval); the reference forces are generated with the real tools::CubicSpline from "
+         "the knot values; the relations 'K * table(blocked run) = sum of the tables of single-block runs on each "
+         "block's frames (--first-frame/--nframes)' and, without noise, 'written force table = generating spline at "
+         "the knots' (1e-6) are evaluated on the files the real csg_fmatch writes.",
+    note="PARTIAL CLAIM: the two linear-algebra clauses of C06 (csg_imc_solve incl. index-file splitting; the "
+         "constrained least-squares routine) and, for csg_fmatch, block independence and reproduction of a representable "
+         "force function for ONE NON-BONDED PAIR INTERACTION without mapping, in the relational reading (both sides of "
+         "every comparison are outputs of the real code; the spec supplies instances, well-posedness and the relation). "
+         "NOT covered: csg_fmatch with bonded interactions (bond/angle/dihedral gradients: see C07 for the gradients "
+         "themselves), several interactions at once, three-body interactions, periodic splines, --trj-force, mapping "
+         "(C01), out_step != step, an absolute numeric oracle for noisy data (no exact integer model of that "
+         "least-squares problem of useful size exists, and a harness that only reports 'close enough' to TLC would be a "
+         "change of technique). "
          "tools::linalg_qrsolve no longer exists in this code base (only named in csg_resample error texts). "
          "Also outside: r = 0 with singular A^T A (the tool's pseudo-inverse branch; the statement demands r > 0; "
          "r = 0 with regular A is included as the limit case), non-square .gmc (the tool takes its grid from the "
          ".imc file), A with an exactly zero column in the constrained routine (the routine rejects it by an "
-         "explicit exception, admitted). Trusted: TLC, the text writers/readers of the check, Python's "
-         "integer-to-float division.")
+         "explicit exception, admitted). The force unit conversion of the lammps dump reader is read from the real "
+         "code (its value is C20's business). Trusted: TLC, the text writers/readers of the check, the force "
+         "assembly F_i = sum G(r_ij) e_ij of the generator, Python's integer-to-float division.")
 
 NAMES = ["A-A", "A-B", "B-B", "bond1", "angle1", "CG-CG"]
 GRID = 16.0
@@ -435,8 +451,10 @@ def run(ctx):
     quick = ctx.quick
     workers = 4
     ctx.rule = ("one system = one TLC state of LsqCheck at ph=1: (A, b, r, index file) replayed as one run of the real "
-                "csg_imc_solve, or (A, b, C) as one call of linalg_constrained_qrsolve; non-trivial = non-symmetric A "
-                "with n >= 2 (Tikhonov) resp. an active constraint (multiplier != 0); an evaluation = one compared number")
+                "csg_imc_solve, or (A, b, C) as one call of linalg_constrained_qrsolve; one csg_fmatch instance = one "
+                "TLC state of Fmatch at ph=1, K+1 runs of the real csg_fmatch; non-trivial = non-symmetric A with "
+                "n >= 2 (Tikhonov), an active constraint (multiplier != 0), >= 2 blocks (fmatch); an evaluation = "
+                "one compared number / one evaluated relation")
     ctx.assumptions += [
         "integer matrices/vectors with entries -2..2 / -3..3, r = rn/rd with rd in {1,2,4} (exact in text and double); "
         "grid values k/16",
@@ -445,7 +463,11 @@ def run(ctx):
         "condition numbers of these integer systems are < 1e7: floating-point error of the real solvers is < 1e-9 "
         "relative, the files carry 10 significant digits; tolerance 1e-7 (tables) / 1e-9 (library call)",
         "the constrained routine's explicit rejection of a matrix with an exactly zero column is admitted",
-        "csg_fmatch is not covered (MANIFEST note)"]
+        "csg_fmatch instances: positions k/8 nm in an 8 nm box (minimum image = direct vector, guarded), one bead type, "
+        "one pair interaction, --no-map, lammps dump with forces; forces written with 17 digits; relation tolerance "
+        "1e-6 of the largest table value (tables carry 10 digits)",
+        "the reference forces are assembled by the check from values of the real CubicSpline (G(r_ij) times the unit "
+        "vector, plus integer noise)"]
     base = tempfile.mkdtemp(prefix="c06-run-", dir=vlib.SCRATCH)
     try:
         _run(ctx, quick, workers, exe_imc, exe_drv, env, base, os.path.join(snap, "csg_fmatch"))
